@@ -53,6 +53,33 @@ type errData struct {
 	msg   string
 	wraps []Value
 	id    int
+	taint uint32 // union of the taints of the values the message was formatted from (C14)
+}
+
+// valueTaint: the taint classes a value would contribute to a text it is formatted into.
+func valueTaint(v Value) uint32 {
+	switch x := v.(type) {
+	case *Str:
+		return sTaint(x)
+	case BytesV:
+		return sTaint(x.s)
+	case IfaceV:
+		if x.t == nil {
+			return 0
+		}
+		if op, ok := x.v.(OpaqueV); ok {
+			if ed, ok := op.data.(*errData); ok {
+				t := ed.taint
+				for _, w := range ed.wraps {
+					t |= valueTaint(w)
+				}
+				return t
+			}
+			return 0
+		}
+		return valueTaint(x.v)
+	}
+	return 0
 }
 
 func errorIs(err, target Value) bool {
@@ -434,7 +461,12 @@ func (e *Engine) registerStdlib() {
 				}
 			}
 		}
-		return c.ret(c.e.newError(c.st, format, wraps...))
+		ev := c.e.newError(c.st, format, wraps...)
+		ed := ev.v.(OpaqueV).data.(*errData)
+		for _, a := range c.e.sliceValues(c.st, c.args[1]) {
+			ed.taint |= valueTaint(a)
+		}
+		return c.ret(ev)
 	})
 	r("errors.New", func(c *CallCtx) []Outcome {
 		m, _ := c.args[0].(*Str).Const()
@@ -453,7 +485,9 @@ func (e *Engine) registerStdlib() {
 		}
 		return c.ret(c.e.newError(c.st, "join", wraps...))
 	})
-	r("opaque:error.Error", func(c *CallCtx) []Outcome { return c.ret(c.e.opaqueString(c.st, "errmsg")) })
+	r("opaque:error.Error", func(c *CallCtx) []Outcome {
+		return c.ret(sWithTaint(c.e.opaqueString(c.st, "errmsg"), valueTaint(c.args[0])))
+	})
 
 	// ---- time
 	r("time.Now", func(c *CallCtx) []Outcome {
@@ -714,6 +748,29 @@ func (e *Engine) registerStdlib() {
 		}
 		return outs
 	})
+	r("(*sync.Map).LoadOrStore", func(c *CallCtx) []Outcome {
+		key, mo := syncMapOf(c)
+		k := strKeyOf(c.args[1])
+		cands := c.e.mapCandidates(c.st, mo, k)
+		conds := make([]*Term, len(cands))
+		for i, cd := range cands {
+			conds[i] = cd.cond
+		}
+		var outs []Outcome
+		for i, s2 := range c.e.forkMany(c.st, conds) {
+			if s2 == nil {
+				continue
+			}
+			if cands[i].index >= 0 {
+				outs = append(outs, Outcome{st: s2, val: TupleV{mo.entries[cands[i].index].v, tTrue}})
+				continue
+			}
+			n := &MapObj{entries: append(append([]MapEntry(nil), mo.entries...), MapEntry{k: k, v: c.args[2]})}
+			s2.ghost[key] = MapV{obj: s2.newObj(n)}
+			outs = append(outs, Outcome{st: s2, val: TupleV{c.args[2], tFalse}})
+		}
+		return outs
+	})
 	r("(*sync.Map).Store", func(c *CallCtx) []Outcome {
 		key, mo := syncMapOf(c)
 		k := strKeyOf(c.args[1])
@@ -825,6 +882,19 @@ func durationString(d int64) string {
 // sprintf models fmt.Sprintf exactly for the verbs used on symbolic data (%s %d %t %v on
 // strings/ints/bools with constant structure); anything else yields an opaque string.
 func (e *Engine) sprintf(st *State, fv, argsv Value) Value {
+	v := e.sprintf0(st, fv, argsv)
+	// whatever could not be formatted exactly still carries the taint of what went into it
+	var t uint32
+	for _, a := range e.sliceValues(st, argsv) {
+		t |= valueTaint(a)
+	}
+	if s, ok := v.(*Str); ok && t != 0 && sTaint(s)&t != t {
+		return sWithTaint(s, sTaint(s)|t)
+	}
+	return v
+}
+
+func (e *Engine) sprintf0(st *State, fv, argsv Value) Value {
 	format, ok := fv.(*Str).Const()
 	if !ok {
 		return e.opaqueString(st, "sprintf")
